@@ -111,6 +111,7 @@ fn run(ctx: &mut Ctx) {
         },
     );
     flips(ctx, &arena);
+    huge(ctx);
     for total in 0..=max_total {
         let span = round8(total).max(8);
         let p = unsafe { arena.end().sub(span) };
@@ -142,6 +143,38 @@ fn run(ctx: &mut Ctx) {
                         }
                     });
                 }
+            }
+        }
+    }
+}
+
+/// Region sizes far above the dense range, in a sparsely backed 4 GiB arena: only the header page and the
+/// page holding the last 8 bytes are ever touched.
+fn huge(ctx: &mut Ctx) {
+    let arena = Arena::new_sparse((1usize << 32) / arena::PAGE + 1);
+    ctx.bound("huge", "total sizes {16 MiB, 64 MiB, 256 MiB, 1 GiB, 2 GiB, 4 GiB - 8} and each +-8, +-16 (region physically present, sparsely backed) x valid / invalid end tag");
+    for base in [16usize << 20, 64 << 20, 256 << 20, 1 << 30, 2 << 30, (4usize << 30) - 8] {
+        for d in [-16i64, -8, 0, 8, 16, 4] {
+            let total = (base as i64 + d) as usize;
+            if total >= (4usize << 30) {
+                continue;
+            }
+            for valid_end in [true, false] {
+                let describe = || J::obj().set("total_size_word", total).set("valid_end_tag", valid_end).set("placement", "flush-right in a sparse 4 GiB arena");
+                ctx.leaf(describe, |ctx| {
+                    let span = round8(total);
+                    let p = unsafe { arena.end().sub(span) };
+                    let hdr: &mut [u8] = unsafe { std::slice::from_raw_parts_mut(p, 8) };
+                    wr32(hdr, 0, total as u32);
+                    wr32(hdr, 4, 0);
+                    let tail: &mut [u8] = unsafe { std::slice::from_raw_parts_mut(p.add(total - 8), 8) };
+                    wr32(tail, 0, 0);
+                    wr32(tail, 4, if valid_end { 8 } else { 9 });
+                    let expected = if total % 8 != 0 { V::Padding } else if valid_end { V::Ok } else { V::NoEnd };
+                    observe(ctx, p, expected, total);
+                    ctx.state_direct();
+                    ctx.nontrivial();
+                });
             }
         }
     }
